@@ -11,7 +11,7 @@ from specs import stmts as ST
 from contracts.cascade import read_cascade, live_patterns
 from contracts.rx_cascade import guard_possible, branch_language
 
-CALLSTMT = seq(opt(seq(kw("if"), ws0, ST.COND, ws0)), kw("call"), ws1, ST.LHS)
+CALLSTMT = seq(opt(seq(ST.DIG, ws1)), opt(seq(kw("if"), ws0, ST.COND, ws0)), kw("call"), ws1, ST.LHS)          # (an optional statement label in front)
 GOTO = seq(kw("go"), ws0, kw("to"), ws0, lit("("), ws0, ST.DIG, star(seq(ws0, lit(","), ws0, ST.DIG)), ws0, lit(")"), opt(seq(ws0, opt(lit(",")), ws0, ST.E1)))
 ENTRY = seq(kw("entry"), ws1, NAME, ws0, opt(seq(ST.A1, ws0)), opt(seq(kw("result"), ws0, lit("("), ws0, NAME, ws0, lit(")"), ws0)))
 FUNCREF_STMT = seq(ST.LHS, ws0, lit("="), ws0, opt(seq(ST.E1, ws0, ST.OPER, ws0)), NAME, ws0, ST.A1, opt(seq(ws0, ST.OPER, ws0, ST.E1)))
